@@ -20,4 +20,7 @@ def obligations(tier):
                   statement='htp_connp_close / htp_connp_req_close keep ERROR and STOP; all other states become CLOSED before the finalisation calls', bounds='all 8x8 status pairs'))
     for s in so.RES_STATES:
         obs.append(so.res_step(s, n=(3 if s == 3 else 4), tier='quick', kfs=(['C09-stop-overwritten'] if s == 4 else [])))
+    # progress: the response side hands over (DATA_OTHER) only to a request side that waits on THIS transaction, otherwise both directions can wait on each other for ever
+    import txobs
+    obs += [o for o in txobs.complete_all('quick') if 'response_complete_ex' in o.name]
     return obs
